@@ -80,7 +80,7 @@ func (c *AlbersEqualAreaConic) Reverse(xy geom.XY) geom.XY {
 		n  = (sin(φ1) + sin(φ2)) / 2
 		C  = sq(cos(φ1)) + 2*n*sin(φ1)
 		ρ0 = R * sqrt(C-2*n*sin(φ0)) / n
-		ρ  = R * sqrt(sq(x)+sq(ρ0-y))
+		ρ  = sqrt(sq(x)+sq(ρ0-y)) / R
 		θ  = atan(x / (ρ0 - y))
 	)
 	var (
